@@ -54,7 +54,7 @@ def make_url(kind, rng, stamp, spec=None):
         elif kind == 'jsessionid':
             spec = (rng.choice(['https://www.ncdc.noaa.gov/homr/api', '/app/page.do', 'http://h.test/a/b',
                                 'http://web.archive.org/web/20100101000000/http://h.test/servlet',
-                                'https://www.webarchive.org.uk/wayback/en/archive/20100101000000mp_/http://h.test/s']), rng.choice(['', ';k=v', ';k=v;j=w']), None)
+                                'https://www.webarchive.org.uk/wayback/en/archive/20100101000000mp_/http://h.test/s']), rng.choice(['', ';k=v', ';k=v;j=w', ';jsessionid=KEPT2', ';k=v;jsessionid=KEPT3;z']), None)
         else:
             spec = (rng.choice(TARGETS), None, None)
     if kind == 'wayback':
@@ -159,6 +159,11 @@ def url_eq_lines(rng, n):
                 ua = rng.choice(odd)
         rs = rng.choice(rule_sets() + [[]])
         cases.append((rs, ua, ub))
+    # every pair of the odd spellings under every rule set (repeated noise markers, near misses, empty strings): systematic, not sampled
+    for rs in rule_sets() + [[]]:
+        for ua in odd:
+            for ub in odd:
+                cases.append((rs, ua, ub))
     lines = []
     impl = []
     for rs, ua, ub in cases:
